@@ -247,6 +247,15 @@ static const scen_t scen[] = {
         { {O_READY,0,0}, E },
         { {O_SET_ACTIONS0,0,0}, E },
         { {O_POLL,0,0}, {O_POLL,0,0}, {O_POLL,0,0}, E } } },
+    /* two-thread versions (no poller) of set_nb_tasks_holding_action and task_to_action for the quick tier */
+    { "set_nb_tasks_2t", 0, {0,0,0}, {1,1,0}, 2, {
+        { {O_SET_TASKS,1,0}, {O_READY,0,0}, {O_DONE_ACTION,0,0}, {O_SET_TASKS0,0,0}, E },
+        { {O_DONE_ACTION,0,0}, {O_POLL,0,0}, E },
+        { E } } },
+    { "task_to_action_2t", 1, {1,1,0}, {0,0,0}, 2, {
+        { {O_ADD_ACTIONS,1,0}, {O_DONE_TASK,0,0}, {O_DONE_ACTION,0,0}, E },
+        { {O_ADD_ACTIONS,1,0}, {O_DONE_TASK,0,0}, {O_DONE_ACTION,0,0}, {O_POLL,0,0}, E },
+        { E } } },
     /* tasks spawn tasks: two workers each spawn a child and complete, counts 2 -> 4 -> 0, two threads race for the last decrement */
     { "spawn_tree_2workers", 1, {1,1,0}, {0,0,0}, 2, {
         { {O_ADD_TASKS,1,0}, {O_DONE_TASK,0,0}, {O_DONE_TASK,0,0}, E },
@@ -283,16 +292,16 @@ static const scen_t scen[] = {
 };
 #define NSCEN ((int)(sizeof(scen) / sizeof(scen[0])))
 #define R(i) static void run_##i(void) { run_scen(&scen[(i) < NSCEN ? (i) : 0]); }
-R(0) R(1) R(2) R(3) R(4) R(5) R(6) R(7) R(8) R(9) R(10) R(11)
-static void (*runners[])(void) = { run_0, run_1, run_2, run_3, run_4, run_5, run_6, run_7, run_8, run_9, run_10, run_11 };
-static cs_scenario_t scenarios[12];
+R(0) R(1) R(2) R(3) R(4) R(5) R(6) R(7) R(8) R(9) R(10) R(11) R(12) R(13) R(14) R(15)
+static void (*runners[])(void) = { run_0, run_1, run_2, run_3, run_4, run_5, run_6, run_7, run_8, run_9, run_10, run_11, run_12, run_13, run_14, run_15 };
+static cs_scenario_t scenarios[16];
 static void setup(void)
 {   /* one-time lazy initialisation of the class system outside the controlled runs */
     parsec_taskpool_t *t = calloc(1, sizeof(*t)); PARSEC_OBJ_CONSTRUCT_WRELEASE(t, parsec_taskpool_t, my_release);
 }
 /* scenarios that only the thorough tier runs (same shapes as others, kept out of the quick tier for its time budget) */
 static const char *thorough_only[] = { "ptg_startup_spawn", "ptg_add_then_ready", "busy_zero_crossings", "actions_fanout", "set_runtime_actions0_vs_ready",
-                                       "set_runtime_actions_then_release", "dtd_insert_then_ready", "set_nb_tasks_owner", NULL };
+                                       "set_runtime_actions_then_release", "dtd_insert_then_ready", "set_nb_tasks_owner", "set_nb_tasks_holding_action", "task_to_action", NULL };
 int main(int argc, char **argv)
 {
     int quick = getenv("C10_QUICK") && atoi(getenv("C10_QUICK")), n = 0;
